@@ -85,7 +85,7 @@ package service
   ensures (= result (svcForAccept {f} {obj}))
 @*/
 /*@ func (*types/service.serviceForFilter).Equals
-  props C17
+  props C17 C07 C06
   theory servicefilters
   implements filter.ComparableFilter.Equals
   requires [recv] (not (= {f} vnil))
